@@ -592,6 +592,8 @@ def gen_exprs(rng, tier, n_typed, n_syntax, cse=0.02, two=True, three=0):
     if two:
         for e in guarded():
             yield "guarded", e
+        for e in guarded_random(rng, 40):
+            yield "guarded", e
     g = ExprGen(rng, malformed=0.0, floats=0.0, extra_nodes=False, cse=cse, lists=False,
                 foreign=False)
     for _ in range(n_typed):
@@ -632,6 +634,51 @@ def guarded():
     # both branches guarded, by different values
     yield p.If(g, p.Sum((q, q)), p.Sum((q3, q3)))
     yield p.If(p.Comparison(g, "==", 3), p.Sum((q, q)), p.Sum((q3, q3)))
+    # a negative shift count behind its guard
+    for u in (p.LeftShift(5, g), p.RightShift(40, g)):
+        yield p.If(p.Comparison(g, ">=", 0), p.Sum((u, u)), 0)
+        yield p.If(p.Comparison(g, "<", 0), 1, p.Product((u, p.Sum((u, 1)))))
+        yield p.Sum((p.If(p.Comparison(g, ">=", 0), u, 5), p.If(p.Comparison(g, "<", 0), 7, u)))
+
+
+def guarded_random(rng, n):
+    """the same family drawn at random: WHICH operation raises (division, remainder, negative
+    power, negative shift count), at which guard value (0, 3, -2: the values `envs_of` tries),
+    how often it is repeated and in what surrounding, and which lazy construct keeps it away"""
+    g, a = p.Variable(GUARD), p.Variable("a")
+    for _ in range(n):
+        c, c2 = rng.randint(2, 40), rng.randint(1, 9)
+        if rng.random() < 0.2:
+            u = rng.choice([p.LeftShift(c, g), p.RightShift(c * 8, g), p.LeftShift(a, g)])   # raise at -2
+            ok, no = p.Comparison(g, ">=", 0), p.Comparison(g, "<", 0)
+        else:
+            bad = rng.choice([0, 0, 3, -2])
+            z = g if bad == 0 else p.Sum((g, -bad))
+            u = rng.choice([p.FloorDiv(c, z), p.Remainder(c, z), p.Quotient(c, z), p.Power(z, -rng.randint(1, 2)),
+                            p.FloorDiv(a, z), p.Remainder(p.Sum((a, c)), z)])
+            ok, no = p.Comparison(g, "!=", bad), p.Comparison(g, "==", bad)
+            if bad == 0 and rng.random() < 0.5:
+                ok, no = g, p.LogicalNot(g)
+        body = rng.choice([lambda: p.Sum((u, u)), lambda: p.Product((u, p.Sum((u, c2)))),
+                           lambda: p.Sum((u, p.Product((c2, u)), u)), lambda: p.Sum((p.Product((u, u)), a)),
+                           lambda: p.Quotient(p.Sum((u, c2)), p.Sum((p.Product((u, u)), 1))),
+                           lambda: p.Sum((p.Power(u, 2), p.Product((a, u))))])()
+        alt = rng.choice([0, 1, c2, a])
+        form = rng.randrange(7)
+        if form == 0:
+            yield p.If(ok, body, alt)
+        elif form == 1:
+            yield p.If(no, alt, body)
+        elif form == 2:
+            yield p.LogicalAnd((ok, p.Comparison(body, rng.choice(["<", ">", "!="]), c2)))
+        elif form == 3:
+            yield p.LogicalOr((no, p.Comparison(body, rng.choice(["<", ">", "!="]), c2)))
+        elif form == 4:
+            yield p.Sum((p.If(ok, u, alt), p.Product((c2, p.If(no, alt, u)))))       # repeated ACROSS guards
+        elif form == 5:
+            yield p.Product((c2, p.Sum((a, p.If(ok, body, alt)))))
+        else:
+            yield p.If(a, p.If(ok, body, alt), p.If(no, alt, u))
 
 
 def envs_of(rng, src, k):
@@ -2038,6 +2085,614 @@ class FunctionDefStream(Stream):
 # }}}
 
 
+# {{{ histories: compiled objects over time (the caller's list changes later, equal-but-differently
+#     typed expressions compiled in one process, pickle round trips in between)
+
+def strict_same(a, b):
+    """the same value AND the same kind of number (int / Fraction / float), floats up to the last
+    bits (the generated code performs the same operations in the same order as the reference: the
+    histories only hold trees without a sum directly below a sum / a product below a product)"""
+    if type_class(a) != type_class(b):
+        return False
+    if isinstance(a, (tuple, list)):
+        return len(a) == len(b) and all(strict_same(x, y) for x, y in zip(a, b))
+    if isinstance(a, (float, complex)):
+        if a != a or b != b:
+            return (a != a) == (b != b)
+        return a == b or abs(a - b) <= 1e-9 * max(abs(a), abs(b))
+    return bool(a == b)
+
+
+def judge_strict(ref, got):
+    """`judge` for the number-only trees of the history streams: float results count too (an exact
+    value where the evaluator computes a float, or the other way round, is another value)"""
+    if ref[0] == "ok":
+        if got[0] != "ok":
+            return f"raises {got[1]} instead of returning {ref[1]!r}"
+        if not strict_same(ref[1], got[1]):
+            return f"returns {got[1]!r} instead of {ref[1]!r}"
+        return None
+    if ref[1] in ARITH:
+        if got[0] == "ok":
+            return f"returns {got[1]!r} instead of raising {ref[1]}"
+        if got[1] != ref[1]:
+            return f"raises {got[1]} instead of {ref[1]}"
+    return None
+
+
+def retype_literals(rng, e, rate=0.6):
+    """a tree that pymbolic's `==` cannot tell from `e` (same hash as well) although Python can:
+    number literals get another Python type of the same value (2 / 2.0, 1 / True / 1.0, 0 / False /
+    0.0).  At least one literal is changed when there is one that can be."""
+    import dataclasses
+    changed = [False]
+
+    def lit(c, force=False):
+        if not (force or rng.random() < rate):
+            return c
+        if isinstance(c, bool):
+            new = rng.choice([int(c), float(c)])
+        elif isinstance(c, int):
+            if abs(c) > 2 ** 50:
+                return c
+            new = float(c) if c not in (0, 1) or rng.random() < 0.6 else bool(c)
+        elif isinstance(c, float) and c == int(c) and abs(c) < 2 ** 50:
+            new = int(c) if c not in (0.0, 1.0) or rng.random() < 0.6 else bool(c)
+        else:
+            return c
+        changed[0] = True
+        return new
+
+    def go(e, force=False):
+        if isinstance(e, (bool, int, float)):
+            return lit(e, force)
+        if isinstance(e, tuple):
+            return tuple(go(c, force) for c in e)
+        if not isinstance(e, p.Expression) or not dataclasses.is_dataclass(e) or isinstance(e, p.Variable):
+            return e
+        kw = {}
+        for f in dataclasses.fields(e):
+            v = getattr(e, f.name)
+            if f.name in ("name", "operator", "prefix", "scope"):
+                kw[f.name] = v
+            elif isinstance(v, (p.Expression, tuple, bool, int, float)):
+                kw[f.name] = go(v, force)
+            else:
+                kw[f.name] = v
+        return type(e)(**kw)
+    r = go(e)
+    if not changed[0]:
+        r = go(e, force=True)
+    return r
+
+
+def history_names(rng, k):
+    """k distinct identifiers, never a keyword or a name of the compile context; text order differs
+    from numeric order (`y10` < `y2`), cases and underscores are mixed"""
+    out = []
+    while len(out) < k:
+        n = rng.choice("abcdefghkmnpqrstuwxyzABXYZ_") + rng.choice(["", "_", "x", "Q"]) + str(rng.randint(0, 120))
+        if n not in out:
+            out.append(n)
+    return out
+
+
+class NumTreeGen:
+    """number-only trees over given variables: + * / // % ** (constant exponent 2 / 3), conditionals
+    on comparisons; a literal in most nodes; never a sum below a sum or a product below a product
+    (the source text then groups exactly as the tree does, floats included); every variable also
+    occurs with a weight of its own, so a misplaced argument changes the value"""
+    LITS = [0, 1, 2, 3, 5, 7, 10, -1, -2, -3, 4, 6, 2.0, 0.5, -1.5, 1.0, True]
+
+    def __init__(self, rng, names):
+        self.rng, self.names = rng, names
+
+    def leaf(self):
+        r = self.rng
+        return p.Variable(r.choice(self.names)) if r.random() < 0.55 else r.choice(self.LITS)
+
+    def gen(self, d, parent=None):
+        r = self.rng
+        if d <= 0 or r.random() < 0.1:
+            return self.leaf()
+        kinds = ["Sum", "Product", "Quotient", "FloorDiv", "Remainder", "Power", "If"]
+        k = r.choice([x for x in kinds if x != parent])
+        if k in ("Sum", "Product"):
+            kids = [self.gen(d - 1, k) for _ in range(r.randint(2, 3))]
+            if r.random() < 0.7:
+                kids.insert(r.randint(0, len(kids)), r.choice(self.LITS))
+            return getattr(p, k)(tuple(kids))
+        if k in ("Quotient", "FloorDiv", "Remainder"):
+            a, b = self.gen(d - 1, k), self.gen(d - 1, k)
+            if r.random() < 0.5:
+                b = r.choice([c for c in self.LITS if c])
+            return getattr(p, k)(a, b)
+        if k == "Power":
+            return p.Power(self.gen(d - 1, k), r.choice([2, 3, 2, 2.0]))
+        cond = p.Comparison(self.gen(d - 1, k), r.choice(["<", "<=", ">", ">=", "==", "!="]), self.gen(d - 1, k))
+        return p.If(cond, self.gen(d - 1, k), self.gen(d - 1, k))
+
+    def program(self, d):
+        terms = [p.Product((3 ** (i + 1), p.Variable(n))) for i, n in enumerate(self.names)]
+        t = self.gen(d, "Sum")
+        terms.insert(self.rng.randint(0, len(terms)), t)
+        return p.Sum(tuple(terms))
+
+
+def history_envs(rng, names):
+    """one environment per kind of exact number: small ints, proper fractions, integers beyond 2**53
+    (where float arithmetic rounds), a mix; pairwise distinct values"""
+    k = len(names)
+    small = rng.sample(range(-9, 12), k)
+    fracs = [Fraction(2 * n + 1, d) for n, d in zip(rng.sample(range(-9, 12), k),
+                                                    [rng.choice([2, 4, 8, 3, 7]) for _ in names])]
+    bigs = rng.sample([2 ** 53 + 1, 2 ** 53 + 3, -(2 ** 53) - 1, 10 ** 30 + 7, 2 ** 64 + 1, 2 ** 63 - 1,
+                       -(10 ** 20) - 3, 3 ** 40 + 2, 2 ** 55 + 5], k)
+    mix = [rng.choice(c) for c in zip(small, fracs, bigs)]
+    return [dumps(env_to_sx(dict(zip(names, vals)))) for vals in (small, fracs, bigs, mix)]
+
+
+def _spare(names):
+    return [n + "_unused" for n in names[:2]]
+
+
+def random_mutation(rng, cur, names):
+    """one in-place change of the caller's list that keeps its members distinct: [how, args…]"""
+    absent = [n for n in names + _spare(names) if n not in cur]
+    hows = ["reverse", "sort", "clear"] if len(cur) > 1 else []
+    if cur:
+        hows += ["pop", "pop", "remove"]
+    if absent:
+        hows += ["append", "append", "insert", "insert"]
+        if cur:
+            hows += ["setitem"]
+    if not hows:
+        return None
+    how = rng.choice(hows)
+    if how == "append":
+        return [how, rng.choice(absent)]
+    if how == "insert":
+        return [how, rng.randint(0, len(cur)), rng.choice(absent)]
+    if how == "setitem":
+        return [how, rng.randrange(len(cur)), rng.choice(absent)]
+    if how == "pop":
+        return [how, rng.randrange(len(cur))]
+    if how == "remove":
+        return [how, rng.choice(cur)]
+    return [how]
+
+
+def apply_mutation(lst, m):
+    how = m[0]
+    if how == "append":
+        lst.append(m[1])
+    elif how == "insert":
+        lst.insert(m[1], m[2])
+    elif how == "setitem":
+        lst[m[1]] = m[2]
+    elif how == "pop":
+        lst.pop(m[1])
+    elif how == "remove":
+        lst.remove(m[1])
+    elif how == "reverse":
+        lst.reverse()
+    elif how == "sort":
+        lst.sort()
+    elif how == "clear":
+        lst.clear()
+    else:
+        raise ValueError(how)
+
+
+PASS_MODES = ("alias", "alias", "alias", "copy", "tuple", "iter", "vars")
+
+
+class CompileHistoryStream(Stream):
+    """A PROGRAM over compiled objects instead of one call: the caller keeps ONE list of leading
+    argument names and goes on changing it (append / insert / pop / reverse / …) while building
+    several compiled functions from it; expressions that pymbolic's `==` identifies but Python
+    distinguishes (a literal 2 / 2.0 / True in the same place) are compiled one after the other in
+    the same process; objects are pickled and unpickled in between (every protocol), and called
+    any number of times, early or late.
+
+    Oracle = the property's own words per compiled object: `compile(e, listed)` takes the variables
+    LISTED WHEN compile() WAS CALLED first and the remaining free variables in name order, returns
+    exactly what evaluating `e` gives (reference interpreter harness/oracles/pyeval.py; the kind of
+    number counts: an exact result where the evaluator computes a float is another value) and
+    behaves identically after a pickle round trip — whatever happened to the caller's list later
+    and whatever else was compiled before.  Oracle only (the model has immutable values: there is
+    nothing a later step could change)."""
+    name = "compile-history"
+
+    # ---- generators --------------------------------------------------------------------------
+    @staticmethod
+    def _payload(exprs, lists, steps, envs, src):
+        return {"exprs": [dumps(expr_to_sx(e)) for e in exprs], "lists": lists, "steps": steps,
+                "envs": envs, "src": src}
+
+    def _calls(self, rng, fids, n_envs, k=2):
+        return [["call", f, i] for f in fids for i in rng.sample(range(n_envs), min(k, n_envs))]
+
+    def growing_list(self, rng):
+        """one list grown (or emptied) step by step, one compiled function per step, everything
+        called (directly / through pickle) only at the end"""
+        names = history_names(rng, rng.randint(2, 4))
+        e = NumTreeGen(rng, names).program(rng.randint(0, 2))
+        order = rng.sample(names + _spare(names)[:1], rng.randint(2, len(names)))
+        start = [] if rng.random() < 0.6 else [n for n in names if n not in order][:1]
+        cur, steps, fids = list(start), [], []
+        how = rng.choice(["append", "insert0", "mixed"])
+        for i, n in enumerate(order):
+            m = ["append", n] if how == "append" or (how == "mixed" and rng.random() < 0.5) \
+                else ["insert", 0 if how == "insert0" else rng.randint(0, len(cur)), n]
+            apply_mutation(cur, m)
+            steps.append(["mutate", 0, *m])
+            steps.append(["compile", i, 0, 0, rng.choice(["alias", "alias", "iter"])])
+            fids.append(i)
+        if rng.random() < 0.4:
+            m = random_mutation(rng, cur, names)
+            if m:
+                steps.append(["mutate", 0, *m])
+        if rng.random() < 0.5:
+            nf = len(fids)
+            for f in list(fids):
+                if rng.random() < 0.7:
+                    steps.append(["pickle", nf, f, rng.randint(0, pickle.HIGHEST_PROTOCOL)])
+                    fids.append(nf)
+                    nf += 1
+        envs = history_envs(rng, names)
+        steps += self._calls(rng, fids, len(envs))
+        return self._payload([e], [start], steps, envs, "growing-list")
+
+    def twins(self, rng):
+        """every one-operator shape with a literal × every pair of Python types of that literal,
+        compiled one after the other (both orders), with and without listed variables"""
+        shapes = [lambda x, c: p.Sum((x, c)), lambda x, c: p.Sum((c, x)), lambda x, c: p.Product((x, c)),
+                  lambda x, c: p.Quotient(x, c), lambda x, c: p.Quotient(c, x),
+                  lambda x, c: p.FloorDiv(x, c), lambda x, c: p.Remainder(x, c),
+                  lambda x, c: p.Power(x, c), lambda x, c: p.Power(c, p.Remainder(x, 3)),
+                  lambda x, c: p.If(p.Comparison(x, "<", 0), c, x), lambda x, c: p.Min((x, c)),
+                  lambda x, c: p.Max((c, x)), lambda x, c: p.Sum((p.Product((c, x)), p.Variable("y")))]
+        for mk in shapes:
+            for val in (rng.choice([2, 3, 5]), 1):
+                variants = [val, float(val)] + ([True] if val == 1 else [])
+                for c1, c2 in itertools.permutations(variants, 2):
+                    x = history_names(rng, 1)[0]
+                    es = [mk(p.Variable(x), c1), mk(p.Variable(x), c2)]
+                    names = free_names(es[0])
+                    listed = rng.choice([[], [names[-1]]])
+                    steps = [["compile", 0, 0, 0, "copy"], ["compile", 1, 1, 0, "copy"]]
+                    fids = [0, 1]
+                    if rng.random() < 0.5:
+                        steps.append(["pickle", 2, rng.choice([0, 1]), pickle.HIGHEST_PROTOCOL])
+                        fids.append(2)
+                    envs = history_envs(rng, names)
+                    steps += self._calls(rng, fids, len(envs), k=4)
+                    yield self._payload(es, [listed], steps, envs, "twins")
+
+    def random_history(self, rng):
+        names = history_names(rng, rng.randint(1, 4))
+        g = NumTreeGen(rng, names)
+        exprs = [g.program(rng.randint(1, 3))]
+        for _ in range(rng.randint(1, 2)):
+            exprs.append(retype_literals(rng, rng.choice(exprs)))
+        if rng.random() < 0.4:
+            exprs.append(g.program(rng.randint(0, 2)))
+        lists = [rng.sample(names, rng.randint(0, len(names)))]
+        if rng.random() < 0.3:
+            lists.append(rng.sample(names + _spare(names), rng.randint(0, len(names))))
+        cur = [list(l) for l in lists]
+        envs = history_envs(rng, names)
+        steps, fids = [], []
+        for _ in range(rng.randint(5, 14)):
+            k = rng.random()
+            if k < 0.3 or not fids:
+                steps.append(["compile", len(fids), rng.randrange(len(exprs)), rng.randrange(len(lists)),
+                              rng.choice(PASS_MODES)])
+                fids.append(len(fids))
+            elif k < 0.55:
+                j = rng.randrange(len(lists))
+                m = random_mutation(rng, cur[j], names)
+                if m:
+                    apply_mutation(cur[j], m)
+                    steps.append(["mutate", j, *m])
+            elif k < 0.7:
+                steps.append(["pickle", len(fids), rng.choice(fids), rng.randint(0, pickle.HIGHEST_PROTOCOL)])
+                fids.append(len(fids))
+            else:
+                steps.append(["call", rng.choice(fids), rng.randrange(len(envs))])
+        steps += self._calls(rng, fids, len(envs))
+        return self._payload(exprs, lists, steps, envs, "random")
+
+    def cases(self, rng, tier):
+        n = 1 if tier == "quick" else 12
+        for _ in range(150 * n):
+            yield self.growing_list(rng)
+        for _ in range(1 if tier == "quick" else 4):
+            yield from self.twins(rng)
+        for _ in range(700 * n):
+            yield self.random_history(rng)
+
+    # ---- correspondence: the argument names of the lambdas that really run vs `HState.run` --------
+    def request(self, pl):
+        def step(st):
+            if st[0] == "mutate":
+                return "(" + " ".join(["mutate", str(st[1]), st[2]]
+                                      + [q(a) if isinstance(a, str) else str(a) for a in st[3:]]) + ")"
+            if st[0] == "compile":
+                return f"(compile {st[1]} {st[2]} {st[3]})"
+            if st[0] == "pickle":
+                return f"(pickle {st[1]} {st[2]})"
+            return f"(call {st[1]})"
+        lists = " ".join("(" + " ".join(q(n_) for n_ in l) + ")" for l in pl["lists"])
+        return (f"(c13-history ({' '.join(pl['exprs'])}) ({lists}) "
+                f"({' '.join(step(st) for st in pl['steps'])}))")
+
+    def run_impl(self, pl):
+        """every call step: the object is called (in the property's order) and the argument names
+        of the lambda it then holds are recorded"""
+        from pymbolic import compile as pcompile
+        exprs = [sx_to_expr(loads(s)) for s in pl["exprs"]]
+        envs = [load_env(s) for s in pl["envs"]]
+        lists = [list(l) for l in pl["lists"]]
+        fns: dict = {}
+        seen = []
+        for st in pl["steps"]:
+            op = st[0]
+            if op == "mutate":
+                try:
+                    apply_mutation(lists[st[1]], st[2:])
+                except (IndexError, ValueError):
+                    pass
+            elif op == "compile":
+                _op, fid, ei, lj, mode = st
+                L = lists[lj]
+                if fid in fns or len(set(L)) != len(L):
+                    continue
+                arg = {"alias": L, "copy": list(L), "tuple": tuple(L), "iter": iter(L),
+                       "vars": [p.Variable(n_) for n_ in L]}[mode]
+                try:
+                    fns[fid] = (pcompile(exprs[ei], arg), ei, list(L))
+                except RecursionError:
+                    raise
+                except Exception as ex:
+                    seen.append(f"({fid} compile-raises {type(ex).__name__})")
+            elif op == "pickle":
+                _op, fid, src, proto = st
+                if fid in fns or src not in fns:
+                    continue
+                try:
+                    fns[fid] = (pickle.loads(pickle.dumps(fns[src][0], proto)),) + fns[src][1:]
+                except RecursionError:
+                    raise
+                except Exception as ex:
+                    seen.append(f"({fid} pickle-raises {type(ex).__name__})")
+            else:
+                _op, fid, envi = st
+                if fid not in fns:
+                    continue
+                f, ei, snap = fns[fid]
+                env = envs[envi]
+                if is_safe(exprs[ei], env):
+                    outcome(lambda: f(*[env.get(n_, 7) for n_ in expected_args(exprs[ei], snap)]))
+                code = getattr(getattr(f, "_code", None), "__code__", None)
+                if code is None:
+                    seen.append(f"({fid} no-lambda)")
+                else:
+                    seen.append("(" + " ".join([str(fid)] + [q(a) for a in code.co_varnames[:code.co_argcount]]) + ")")
+        return "(" + " ".join(["seen"] + seen) + ")"
+
+    # ---- the history on the real code, judged step by step -----------------------------------
+    @staticmethod
+    def render(pl, upto=None):
+        """the history as Python text"""
+        out = [f"e{i} = {sx_to_expr(loads(s))!r}" for i, s in enumerate(pl["exprs"])]
+        out += [f"L{j} = {list(l)!r}" for j, l in enumerate(pl["lists"])]
+        wrap = {"alias": "L{0}", "copy": "list(L{0})", "tuple": "tuple(L{0})", "iter": "iter(L{0})",
+                "vars": "[Variable(n) for n in L{0}]"}
+        for i, st in enumerate(pl["steps"]):
+            if upto is not None and i > upto:
+                break
+            if st[0] == "compile":
+                out.append(f"f{st[1]} = compile(e{st[2]}, {wrap[st[4]].format(st[3])})")
+            elif st[0] == "mutate":
+                out.append(f"L{st[1]}.{st[2]}({', '.join(repr(a) for a in st[3:])})")
+            elif st[0] == "pickle":
+                out.append(f"f{st[1]} = pickle.loads(pickle.dumps(f{st[2]}, {st[3]}))")
+            else:
+                out.append(f"f{st[1]}(<env {st[2]}>)")
+        return "; ".join(out)
+
+    def simulate(self, pl):
+        """None, or (step index, function id, circumstances, tail, what) of the first step at which
+        a compiled object does not do what the property says.  `circumstances`: what the history
+        before that step contains that could matter (read off the steps, nothing is executed
+        for it)"""
+        from pymbolic import compile as pcompile
+        exprs = [sx_to_expr(loads(s)) for s in pl["exprs"]]
+        envs = [load_env(s) for s in pl["envs"]]
+        lists = [list(l) for l in pl["lists"]]
+        fns: dict = {}           # id -> dict(f, ei, snap, lj, mode, born, pickled)
+        compiled = []            # (step, ei, snapshot) of every compile step so far
+        mutated: dict = {}       # list index -> steps at which it was changed
+
+        def flags(fn, idx):
+            fl = []
+            if fn["mode"] in ("alias", "iter") and any(fn["born"] < s < idx for s in mutated.get(fn["lj"], [])):
+                fl.append("listed-changed-after-compile")
+            e = exprs[fn["ei"]]
+            others = [(s, ei, snap) for s, ei, snap in compiled if s != fn["born"] and s < idx]
+            if any(exprs[ei] == e and repr(exprs[ei]) != repr(e) for _s, ei, _n in others):
+                fl.append("equal-expression-compiled-too")
+            if any(repr(exprs[ei]) == repr(e) for _s, ei, snap in others):
+                fl.append("same-expression-compiled-too")
+            if fn["pickled"]:
+                fl.append("pickled")
+            return fl
+
+        for idx, st in enumerate(pl["steps"]):
+            op = st[0]
+            if op == "mutate":
+                if st[1] < len(lists):
+                    try:
+                        apply_mutation(lists[st[1]], st[2:])
+                    except (IndexError, ValueError):
+                        continue                     # (a shrunk history: the step no longer applies)
+                    mutated.setdefault(st[1], []).append(idx)
+            elif op == "compile":
+                _op, fid, ei, lj, mode = st
+                L = lists[lj]
+                if fid in fns or len(set(L)) != len(L):
+                    continue                     # (an id is bound once; no argument twice)
+                snap = list(L)
+                arg = {"alias": L, "copy": list(L), "tuple": tuple(L), "iter": iter(L),
+                       "vars": [p.Variable(n_) for n_ in L]}[mode]
+                fn = {"ei": ei, "snap": snap, "lj": lj, "mode": mode, "born": idx, "pickled": False}
+                compiled.append((idx, ei, snap))
+                try:
+                    fn["f"] = pcompile(exprs[ei], arg)
+                except Exception as ex:
+                    return idx, fid, flags(fn, idx), ":compile-raises", \
+                        f"compile(e{ei}, {snap!r}) raises {type(ex).__name__}: {ex}"
+                fns[fid] = fn
+            elif op == "pickle":
+                _op, fid, src, proto = st
+                if fid in fns or src not in fns:
+                    continue
+                fn = dict(fns[src], pickled=True)
+                try:
+                    fn["f"] = pickle.loads(pickle.dumps(fns[src]["f"], proto))
+                except Exception as ex:
+                    return idx, fid, flags(fn, idx), ":pickle-raises", \
+                        f"pickling f{src} raises {type(ex).__name__}: {ex}"
+                fns[fid] = fn
+            elif op == "call":
+                _op, fid, envi = st
+                if fid not in fns:
+                    continue
+                fn, env = fns[fid], envs[envi]
+                e = exprs[fn["ei"]]
+                if not is_safe(e, env):
+                    continue
+                ref = outcome(lambda: pyeval(e, env))
+                if ref[0] == "err" and ref[1] not in ARITH:
+                    continue
+                order = expected_args(e, fn["snap"])
+                args = [env.get(n_, 7) for n_ in order]
+                got = outcome(lambda: fn["f"](*args))
+                why = judge_strict(ref, got)
+                if why is not None:
+                    at = dict(zip(order, args))
+                    return idx, fid, flags(fn, idx), "", (
+                        f"f{fid} = compile(e{fn['ei']}, {fn['snap']!r})"
+                        + (" after a pickle round trip" if fn["pickled"] else "")
+                        + f", called in the property's order {order!r} := {at!r}: {why}")
+        return None
+
+    # ---- which circumstance is the cause: the history re-run without it ---------------------------
+    _fresh = 0
+
+    @classmethod
+    def renamed(cls, pl):
+        """the same history over other variable names (one prefix for all: the text order of the
+        names is unchanged), so that nothing compiled earlier in this process is met again"""
+        import dataclasses
+        cls._fresh += 1
+        pre = f"r{cls._fresh}_"
+
+        def go(e):
+            if isinstance(e, p.Variable):
+                return p.Variable(pre + e.name)
+            if isinstance(e, tuple):
+                return tuple(go(c) for c in e)
+            if not isinstance(e, p.Expression) or not dataclasses.is_dataclass(e):
+                return e
+            return type(e)(**{f.name: go(getattr(e, f.name)) if f.name not in ("operator",) else
+                              getattr(e, f.name) for f in dataclasses.fields(e)})
+        steps = [[st[0], st[1], st[2], *[pre + a if isinstance(a, str) else a for a in st[3:]]]
+                 if st[0] == "mutate" else list(st) for st in pl["steps"]]
+        envs = [dumps(env_to_sx({pre + k: v for k, v in load_env(s).items()})) for s in pl["envs"]]
+        return {**pl, "exprs": [dumps(expr_to_sx(go(sx_to_expr(loads(s))))) for s in pl["exprs"]],
+                "lists": [[pre + n_ for n_ in l] for l in pl["lists"]], "steps": steps, "envs": envs}
+
+    @staticmethod
+    def without(pl, flag, fid):
+        """the history with one circumstance taken away (the failing call stays the last step)"""
+        steps = [list(st) for st in pl["steps"]]
+        maker = {st[1]: st for st in steps if st[0] in ("compile", "pickle")}
+        root = maker.get(fid)
+        while root is not None and root[0] == "pickle":
+            root = maker.get(root[2])
+        if root is None:
+            return None
+        if flag == "listed-changed-after-compile":
+            root[4] = "copy"
+            return {**pl, "steps": steps}
+        if flag == "pickled":
+            if steps[-1][0] != "call":
+                return None
+            steps[-1][1] = root[1]
+            return {**pl, "steps": steps}
+        exprs = [sx_to_expr(loads(s)) for s in pl["exprs"]]
+        e = exprs[root[2]]
+        if flag == "equal-expression-compiled-too":
+            drop = [st for st in steps if st[0] == "compile" and st is not root
+                    and exprs[st[2]] == e and repr(exprs[st[2]]) != repr(e)]
+        else:
+            drop = [st for st in steps if st[0] == "compile" and st is not root
+                    and repr(exprs[st[2]]) == repr(e)]
+        return {**pl, "steps": [st for st in steps if not any(st is d for d in drop)]}
+
+    def causes(self, cut, fid, flags):
+        """the circumstances without which the failure disappears (each taken away on its own, in
+        a copy of the history over fresh names); all of them when no single one is responsible or
+        the failure does not reproduce in isolation"""
+        try:
+            base = self.renamed(cut)
+            if self.simulate(base) is None:
+                return flags + ["process-history"]
+            out = []
+            for fl in flags:
+                cf = self.without(self.renamed(cut), fl, fid)
+                if cf is not None and self.simulate(cf) is None:
+                    out.append(fl)
+            return out
+        except RecursionError:
+            raise
+        except Exception:
+            return flags
+
+    def oracle(self, pl):
+        r = self.simulate(pl)
+        if r is None:
+            return None
+        idx, fid, flags, tail, what = r
+        cut = {**pl, "steps": pl["steps"][:idx + 1]}
+        causal = self.causes(cut, fid, flags)
+        key = "compile-history:" + ("+".join(causal) or "plain") + tail
+        return Failure(key, f"{what}.  History: {self.render(cut)}", cut)
+
+    def shrink(self, pl):
+        steps = pl["steps"]
+        for i in range(len(steps) - 2, -1, -1):
+            yield {**pl, "steps": steps[:i] + steps[i + 1:]}
+
+    def nontrivial_key(self, pl, model, impl):
+        return json_key(pl)
+
+    def stats(self, pl, mo, io, acc):
+        acc[pl["src"]] = acc.get(pl["src"], 0) + 1
+        for st in pl["steps"]:
+            acc["step:" + st[0]] = acc.get("step:" + st[0], 0) + 1
+
+
+def json_key(pl):
+    import json
+    return json.dumps([pl["exprs"], pl["lists"], pl["steps"]])
+
+# }}}
+
+
 def probes():
     from pymbolic import compile as pcompile, evaluate
     from pymbolic.interop.ast import (ASTToPymbolic, to_evaluatable_python_function,
@@ -2131,7 +2786,7 @@ def probes():
 PROP = Prop(
     id="C13",
     title="Generated Python code computes what the evaluator computes",
-    lean_targets=["PV.Properties.C13", "PV.Properties.C13Table"],
+    lean_targets=["PV.Properties.C13", "PV.Properties.C13Table", "PV.Properties.C13History"],
     partial={"PV.C13.toAst_run_value_partial":
              "executing the generated AST equals the evaluator on the fragment AstOk: or/and need "
              "two or more boolean operands (Python returns an operand; a one-value BoolOp is "
@@ -2159,7 +2814,7 @@ PROP = Prop(
     extractors=[extract],
     streams=[CompileStream(), ArgOrderStream(), ToAstStream(), FunctionSourceStream(),
              RoundTripStream(), FromAstStream(), DenAstStream(), PyTableStream(),
-             SourceGroupsStream(), TableRunStream(), FunctionDefStream()],
+             SourceGroupsStream(), TableRunStream(), FunctionDefStream(), CompileHistoryStream()],
     probes=[probes],
     trusted_base=["Lean 4.33 kernel; axioms propext, Classical.choice, Quot.sound only",
                   "CPython (eval, compile, ast.unparse, pickle) executes the generated programs: "
